@@ -200,11 +200,11 @@ def _raises(f, *exc):
     return False
 
 
-@harness("C18", args="which: int", pre=["0 <= which <= 9"], tiers={"quick": {"timeout": 120}}, sample=(0,),
-         bounds="documented rejections: reserved names, non-HDL values, attribute deletion, sub-classing, additions after elaboration (Module and Bundle); class-style definition equals the procedural one",
+@harness("C18", args="which: int", pre=["0 <= which <= 10"], tiers={"quick": {"timeout": 120}}, sample=(0,),
+         bounds="documented rejections: reserved names, non-HDL values, attribute deletion, sub-classing, additions after elaboration (Module and Bundle); class-style definition equals the procedural one (Module: one fixed case here, see class_equals_procedural; Bundle: private names and reserved names)",
          generalises="selector only")
 def rejections(which):
-    which = env.pick(which, 0, 9)
+    which = env.pick(which, 0, 10)
     with env.notrace():
         return _rejections(which)
 
@@ -254,6 +254,24 @@ def _rejections(which):
             return a == c
     if which == 8:
         return _raises(lambda: m.add(h.Signal())) and _raises(lambda: m.add(h.Signal(name="x"), name="y"))
+    if which == 10:
+        # the @bundle class body equals the procedural definition: private (underscore) names are not members, reserved
+        # names are refused on both paths
+        Sub = h.Bundle(name="Sub")
+        Sub.add(h.Signal(name="x"))
+        Cls = h.bundle(type("Cls", (), {"a": h.Signal(width=2), "_tmp": h.Signal(), "i": h.BundleInstance(of=Sub), "_sub": h.BundleInstance(of=Sub)}))
+        P = h.Bundle(name="Cls")
+        P.a = h.Signal(width=2)
+        P._tmp = h.Signal()
+        P.i = h.BundleInstance(of=Sub)
+        P._sub = h.BundleInstance(of=Sub)
+        view = lambda bb: (sorted(bb.namespace), sorted(bb.signals), sorted(bb.bundles))
+        if view(Cls) != view(P):
+            WHY["why"] = f"class-style bundle {view(Cls)} != procedural {view(P)}"
+            return False
+        def cls_reserved():
+            h.bundle(type("R", (), {"namespace": h.Signal()}))
+        return _raises(cls_reserved) == _raises(lambda: setattr(P, "namespace", h.Signal()))
     return _raises(lambda: delattr(b, "x")) if hasattr(type(b), "__delattr__") and type(b).__delattr__ is not object.__delattr__ else True
 
 
